@@ -16,6 +16,7 @@ import (
 func init() {
 	vcScenarios["C08"] = vcScenC08
 	vcDirected["C08"] = []vcScenario{
+		func(t *vcTrial) { vcRunC08TimerTie(t, 250) },
 		func(t *vcTrial) { vcRunC08(t, vc08Cfg{Kind: "fdconn", Peer: "stall", TimeoutKind: "timeout", Size: 1 << 20, Flushes: 1}) },
 		func(t *vcTrial) { vcRunC08(t, vc08Cfg{Kind: "fdconn", Peer: "stall", TimeoutKind: "deadline", Size: 1 << 20, Flushes: 1}) },
 		func(t *vcTrial) { vcRunC08(t, vc08Cfg{Kind: "dial", Peer: "delay", TimeoutKind: "none", Size: 2 << 20, Flushes: 2, Second: true}) },
@@ -43,6 +44,10 @@ var vc08Q = []int{vpOutputs, vpOutputAck, vpRw2rBeforeControl, vpRw2rBeforeTrigg
 
 func vcScenC08(t *vcTrial) {
 	r := t.R
+	if r.intn(60) == 0 {
+		vcRunC08TimerTie(t, r.rng(60, 250))
+		return
+	}
 	cfg := vc08Cfg{Kind: []string{"dial", "accept", "fdconn"}[r.intn(3)]}
 	cfg.Peer = []string{"drain", "drain", "slow", "delay", "stall", "close", "rst"}[r.intn(7)]
 	cfg.TimeoutKind = []string{"none", "timeout", "deadline"}[r.intn(3)]
@@ -295,6 +300,7 @@ func vcRunC08(t *vcTrial, cfg vc08Cfg) {
 	rejected, viaPoller := 0, 0
 	var firstErr error
 	for fi := 0; fi < cfg.Flushes && firstErr == nil && !t.Violated(); fi++ {
+		imark := vcTraceMark() // "parked" must be this iteration's flush, not an earlier one's
 		// submit (no flush inside Step: flushPct 0, and no self-flushing patterns while pending)
 		target := cfg.Size / cfg.Flushes
 		if target < 1 {
@@ -359,6 +365,8 @@ func vcRunC08(t *vcTrial, cfg vc08Cfg) {
 		secondOverlap := false
 		secondUsesWrite := r.chance(50)
 		secondLen, secondWrote := r.rng(1, 64), 0
+		secondMallocs, secondMalloced := r.chance(50), 0
+		secondFlushedTo := uint64(0)
 		thirdBad := ""
 		// a second Flush/Write is only issued where the first cannot end by a write timeout meanwhile:
 		// flushing again after a write timeout is outside the contract (the poller may still be
@@ -367,7 +375,7 @@ func vcRunC08(t *vcTrial, cfg vc08Cfg) {
 			go func() {
 				defer close(secondDone)
 				// wait (bounded) until the first flusher is parked: only then "in progress" is certain
-				parked := vcWaitPoint(mark, vpWaitFlushBeforeBlock, vcConnID(conn), 30*time.Millisecond) || vcWaitPoint(mark, vpWaitFlushBeforeSelect, vcConnID(conn), time.Millisecond)
+				parked := vcWaitPoint(imark, vpWaitFlushBeforeBlock, vcConnID(conn), 30*time.Millisecond) || vcWaitPoint(imark, vpWaitFlushBeforeSelect, vcConnID(conn), time.Millisecond)
 				if !parked {
 					return
 				}
@@ -386,6 +394,14 @@ func vcRunC08(t *vcTrial, cfg vc08Cfg) {
 					if secondErr == nil {
 						secondWrote = n
 					}
+				} else if secondMallocs {
+					// Malloc + Flush by the second goroutine: rejected, the Flush may not have published
+					// anything - its bytes stay submitted-but-unflushed until a Flush that succeeds
+					if b, err := conn.Writer().Malloc(secondLen); err == nil {
+						vfFill(b, w.Seed, w.Pos)
+						secondMalloced = secondLen
+					}
+					secondErr = conn.Writer().Flush()
 				} else {
 					secondErr = conn.Writer().Flush()
 				}
@@ -474,6 +490,13 @@ func vcRunC08(t *vcTrial, cfg vc08Cfg) {
 			w.Pos += uint64(secondWrote) // an admitted Write: its bytes follow everything submitted before
 			t.Stat("second_write_admitted", 1)
 		}
+		if secondMalloced > 0 {
+			w.Pos += uint64(secondMalloced) // submitted; flushed only if that Flush (or a later one) succeeded
+			if secondErr == nil {
+				secondFlushedTo = w.Pos
+			}
+			t.Stat("second_malloc_flush", 1)
+		}
 		desc := fmt.Sprintf("flush #%d of %d bytes (peer=%s, timeout=%s/%v, sndbuf=%d)", fi, w.Pos-w.Flushed, cfg.Peer, cfg.TimeoutKind, d, cfg.SndBuf)
 		if res.pan != nil {
 			t.Violate("C08", "panic", "%s panicked: %v", desc, res.pan)
@@ -485,6 +508,11 @@ func vcRunC08(t *vcTrial, cfg vc08Cfg) {
 				t.Violate("C08", "nil_with_pending", "%s returned nil with %d bytes still in the output buffer", desc, res.outLen)
 			}
 			w.Flushed = w.Pos
+			if secondMalloced > 0 && secondFlushedTo == 0 {
+				// the second goroutine's bytes were submitted after the first Flush had started and its
+				// own Flush was rejected: they are not flushed yet
+				w.Flushed = w.Pos - uint64(secondMalloced)
+			}
 			w.epochWB, w.epochWD = false, false
 			outcomes += "n"
 		case errors.Is(res.err, ErrWriteTimeout):
@@ -579,3 +607,121 @@ func vcRunC08(t *vcTrial, cfg vc08Cfg) {
 	_ = io.EOF
 }
 
+
+// vcRunC08TimerTie: the write-timer twin of C07's read-timer tie. On one connection with a write
+// timeout T the peer starts to drain a blocked flush at about T (the lead is steered by feedback so
+// that the flush completes just before the timer about as often as it times out); after a flush that
+// completed, a second blocked flush with a long timeout is made: it may not report ErrWriteTimeout
+// before its own timeout ("never early"). A flush that timed out ends the connection (flushing
+// again after a write timeout is outside the contract): the scenario goes on with a fresh one.
+func vcRunC08TimerTie(t *vcTrial, rounds int) {
+	t.P("variant", "write-timer tie, then a long-timeout flush")
+	r := t.R
+	T := time.Duration(r.rng(2, 5)) * time.Millisecond
+	lead := T - 300*time.Microsecond // when the peer starts draining, relative to the Flush call
+	completed, timedOut, followUps := 0, 0, 0
+	var conn Connection
+	var pfd int = -1
+	var cleanup func()
+	junk := make([]byte, 64<<10)
+	fresh := func() bool {
+		if cleanup != nil {
+			syscall.Close(pfd)
+			cleanup()
+		}
+		conn, pfd, cleanup = vcMakeWriterConn(t, "fdconn")
+		if conn == nil {
+			return false
+		}
+		vcSetBuf(int(conn.(Conn).Fd()), 4096, 0)
+		syscall.SetNonblock(pfd, true)
+		return true
+	}
+	drain := func() {
+		buf := make([]byte, 256<<10)
+		for {
+			n, _ := syscall.Read(pfd, buf)
+			if n <= 0 {
+				return
+			}
+		}
+	}
+	if !fresh() {
+		return
+	}
+	defer func() {
+		if cleanup != nil {
+			syscall.Close(pfd)
+			cleanup()
+		}
+	}()
+	blockedFlush := func(timeout time.Duration, drainAfter time.Duration) (error, time.Duration) {
+		conn.SetWriteTimeout(timeout)
+		// more than the socket takes: the flush has to wait for the peer
+		for i := 0; i < 2; i++ {
+			conn.Writer().WriteBinary(junk[:24<<10])
+		}
+		done := make(chan struct{})
+		exited := make(chan struct{})
+		go func() {
+			defer close(exited)
+			time.Sleep(drainAfter)
+			for {
+				drain()
+				select {
+				case <-done:
+					drain()
+					return
+				default:
+					time.Sleep(50 * time.Microsecond)
+				}
+			}
+		}()
+		t0 := time.Now()
+		err := conn.Writer().Flush()
+		el := time.Since(t0)
+		close(done)
+		<-exited // the drainer must be gone before the descriptor number can be closed and re-issued
+		return err, el
+	}
+	for i := 0; i < rounds && !t.Violated(); i++ {
+		err, _ := blockedFlush(T, lead+time.Duration(r.intn(200))*time.Microsecond)
+		switch {
+		case err == nil:
+			completed++
+			lead += 20 * time.Microsecond
+			// the follow-up: long timeout, the peer drains after a millisecond
+			long := 2 * time.Second
+			err2, el2 := blockedFlush(long, time.Millisecond)
+			followUps++
+			if errors.Is(err2, ErrWriteTimeout) && el2 < long {
+				t.Violate("C08", "early_timeout", "round %d: a Flush with a %v write timeout returned ErrWriteTimeout after %v; the previous Flush on this connection (timeout %v) had completed at about the moment its timer expired (stale timer tick?)", i, long, el2, T)
+				return
+			}
+			if err2 != nil {
+				if !fresh() {
+					return
+				}
+			}
+		case errors.Is(err, ErrWriteTimeout):
+			timedOut++
+			lead -= 40 * time.Microsecond
+			if lead < 0 {
+				lead = 0
+			}
+			if !fresh() {
+				return
+			}
+		default:
+			if !fresh() {
+				return
+			}
+		}
+	}
+	t.Stat("timer_tie_rounds", completed+timedOut)
+	t.Stat("timer_tie_completed", completed)
+	t.Stat("timer_tie_timed_out", timedOut)
+	t.Stat("timer_tie_follow_ups", followUps)
+	t.Nontrivial = completed > 5 && timedOut > 5
+	t.Sig = fmt.Sprintf("write-timer-tie|balanced=%v", t.Nontrivial)
+}
